@@ -5,14 +5,21 @@ import Frp.Lemmas.NatHole
   Model: Frp/Model/NatHole.lean (pkg/nathole/{classify,analysis,controller}.go),
   tables: Frp/Gen/NatTables.lean (REGENERATED from analysis.go on every run).
 
+  The model describes the REPAIRED code: f51e354 (ClassifyNATFeature rejects ports outside
+  1..65535), 8d80cd3 (the notify send of HandleVisitor is bounded by NatHoleTimeout) and the
+  C08 fix (the session branch of HandleVisitor consults allowUsers).  The pinned tree's functions
+  are kept as `classifyOld`, `analysisOld`, `stepOld`, `runOld` with their witness theorems.
+
   §1 tables (decide over the whole regenerated tables)      §2 executable predicates
   §3 recommendations, all histories (scores_valid, complementary, role rules)
-  §4 port ranges (ports_in_range; witness: port 70000 ⇒ 69995..65535)
-  §5 Controller.analysis: the two responses (pair ok; full clause = `AnalysisFull`, FALSE on this
-     tree: `analysis_oor_witness`; proved with the excluded case as hypothesis: `analysis_full_partial`)
-  §6 sessions, small-step, all interleavings (creation only when signed; addressing; rank argument
-     `sessions_deleted`; FALSE on this tree: "every session is eventually deleted" — `leak_witness`,
-     the notify send has no timeout; `handler_progress` has the live-channel case as hypothesis)
+  §4 port ranges of getRangePorts (ports_in_range; the function itself still maps 70000 to
+     69995..65535 — `ports_out_of_range_witness` — but is no longer reachable with such a port)
+  §5 Controller.analysis: the two responses — FULL: `analysis_full` (no hypothesis on ports),
+     `analysis_malformed_error`; pinned tree: `analysis_oor_witness` (¬ AnalysisFullFor classifyOld)
+  §6 sessions, small-step, all interleavings — creation only when signed AND allowed; addressing;
+     rank argument `sessions_deleted`; FULL progress `handler_never_stuck` (every stored session of
+     every reachable state has an enabled handler step); pinned tree: `leak_witness`,
+     `allow_users_not_checked_witness`
   §7 soundness of the predicates the driver evaluates on the implementation's responses
 -/
 namespace Frp
@@ -340,13 +347,14 @@ theorem roleCompl_of {a b : Beh} (h : Complementary a b) : roleCompl a.role b.ro
   rcases h with h | h <;> simp [roleCompl, h.1, h.2]
 
 /-- whatever the analyzer has seen before (`AInv`, which `scores_valid` gives for every history),
-    a successful analysis produces a well-formed pair: same sid, same mode, complementary roles,
-    each side gets the other side's addresses; and the analyzer invariant is kept -/
-theorem analysis_pair_ok (A A' : Analyzer) (sid : Str) (vm : VMsg) (cm : CMsg) (o : AnalysisOut)
-    (hA : AInv A) (hsid : sid ≠ []) (h : analysis A sid vm cm = .ok (A', o)) :
+    a successful analysis (over any classifier) produces a well-formed pair: same sid, same mode,
+    complementary roles, each side gets the other side's addresses; the analyzer invariant is kept -/
+theorem analysisWith_pair_ok (cls : List Str → List Str → Option Feature)
+    (A A' : Analyzer) (sid : Str) (vm : VMsg) (cm : CMsg) (o : AnalysisOut)
+    (hA : AInv A) (hsid : sid ≠ []) (h : analysisWith cls A sid vm cm = .ok (A', o)) :
     instrOk sid vm cm o.vResp o.cResp = true ∧ AInv A' ∧ o.vResp.mode = o.mode ∧
     o.index < (behaviorsByMode o.mode).length := by
-  unfold analysis at h
+  unfold analysisWith at h
   split at h
   · cases h
   · next cf hcf =>
@@ -369,16 +377,22 @@ theorem analysis_pair_ok (A A' : Analyzer) (sid : Str) (vm : VMsg) (cm : CMsg) (
           (getRecommand A (analysisKey vm vf cm cf) cf vf).2.cBeh.role = true := by
         rcases hc with h | h <;> simp [roleCompl, h.1, h.2]
       refine ⟨?_, ainv_getRecommand hA _ cf vf, rfl, hrow⟩
-      simp only [instrOk, hc', beq_self_eq_true, Bool.and_true, Bool.true_and, bne_iff_ne, ne_eq,
-        Bool.and_eq_true, decide_eq_true_eq]
+      simp only [instrOk, hc', beq_self_eq_true, Bool.and_true, Bool.true_and, bne_iff_ne, ne_eq]
       simp [hsid]
+
+/-- the current `Controller.analysis` -/
+theorem analysis_pair_ok (A A' : Analyzer) (sid : Str) (vm : VMsg) (cm : CMsg) (o : AnalysisOut)
+    (hA : AInv A) (hsid : sid ≠ []) (h : analysis A sid vm cm = .ok (A', o)) :
+    instrOk sid vm cm o.vResp o.cResp = true ∧ AInv A' ∧ o.vResp.mode = o.mode ∧
+    o.index < (behaviorsByMode o.mode).length :=
+  analysisWith_pair_ok classify A A' sid vm cm o hA hsid h
 
 /-- an analysis error is told to both parties as an error pair without any instruction -/
 theorem analysis_error_both (A : Analyzer) (sid : Str) (vm : VMsg) (cm : CMsg) (e : ErrKind)
     (h : analysis A sid vm cm = .error e) :
     e ≠ .none ∧ errPairOk (errResp vm.tid e) (errResp cm.tid e) = true := by
   have he : e ≠ .none := by
-    unfold analysis at h
+    unfold analysis analysisWith at h
     split at h
     · cases h; simp
     · split at h
@@ -387,64 +401,89 @@ theorem analysis_error_both (A : Analyzer) (sid : Str) (vm : VMsg) (cm : CMsg) (
   refine ⟨he, ?_⟩
   simp [errPairOk, errResp, he]
 
-theorem classifyLoop_bad (loc : List Str) (a : Str)
-    (hbad : splitHostPort a = none ∨ ∃ h p, splitHostPort a = some (h, p) ∧ atoi p = none) :
-    ∀ (addrs : List Str) (st : ClsSt), a ∈ addrs → classifyLoop loc addrs st = none := by
+/-- f51e354: the classification loop only accepts addresses that split and whose port is a
+    decimal in 1..65535 -/
+theorem classifyLoop_valid (loc : List Str) : ∀ (addrs : List Str) (st st' : ClsSt),
+    classifyLoop loc addrs st = some st' → ∀ a ∈ addrs, portValid a = true := by
   intro addrs
   induction addrs with
-  | nil => intro st h; cases h
+  | nil => intro st st' _ a ha; cases ha
   | cons x r ih =>
-    intro st hmem
-    simp only [classifyLoop]
-    rcases List.mem_cons.mp hmem with hx | hr
-    · subst hx
-      rcases hbad with h | ⟨hh, p, h1, h2⟩
-      · rw [h]
-      · rw [h1]; simp only [h2]
-    · split
-      · rfl
-      · split
-        · rfl
-        · split <;> exact ih _ hr
+    intro st st' e a ha
+    simp only [classifyLoop] at e
+    split at e
+    · cases e
+    · next ip port hsp =>
+      split at e
+      · cases e
+      · next pn hpn =>
+        split at e
+        · cases e
+        · next hr =>
+          have hx : portValid x = true := by
+            unfold portValid
+            rw [hsp]
+            simp only [hpn, Bool.and_eq_true, decide_eq_true_eq]
+            omega
+          have hrest : ∀ a ∈ r, portValid a = true := by
+            split at e
+            · exact ih _ _ e
+            · exact ih _ _ e
+          rcases List.mem_cons.mp ha with h | h
+          · subst h; exact hx
+          · exact hrest a h
 
-/-- a malformed mapped address (does not split, or its port is not a decimal integer) on either
-    side makes the analysis fail — both parties then get the error pair (`analysis_error_both`) -/
+theorem classify_ok_valid {addrs loc : List Str} {f : Feature} (h : classify addrs loc = some f) :
+    addrsValid addrs = true := by
+  unfold classify at h
+  split at h
+  · cases h
+  · split at h
+    · cases h
+    · next st hst =>
+      exact List.all_eq_true.mpr (classifyLoop_valid loc addrs {} st hst)
+
+/-- a mapped address on either side that is malformed (does not split, port not a decimal
+    integer) or, with f51e354, has a port outside 1..65535 makes the analysis fail — both
+    parties then get the error pair (`analysis_error_both`), never an instruction -/
 theorem analysis_malformed_error (A : Analyzer) (sid : Str) (vm : VMsg) (cm : CMsg) (a : Str)
-    (hmem : a ∈ vm.mapped ∨ a ∈ cm.mapped)
-    (hbad : splitHostPort a = none ∨ ∃ h p, splitHostPort a = some (h, p) ∧ atoi p = none) :
+    (hmem : a ∈ vm.mapped ∨ a ∈ cm.mapped) (hbad : portValid a = false) :
     ∃ e, analysis A sid vm cm = .error e := by
   have hcls : ∀ l loc, a ∈ l → classify l loc = none := by
     intro l loc hl
-    unfold classify
-    split
-    · rfl
-    · rw [classifyLoop_bad loc a hbad l {} hl]
-  unfold analysis
+    cases hc : classify l loc with
+    | none => rfl
+    | some f =>
+      have := List.all_eq_true.mp (classify_ok_valid hc) a hl
+      rw [hbad] at this; cases this
+  unfold analysis analysisWith
   rcases hmem with hv | hc
   · split
     · exact ⟨_, rfl⟩
     · rw [hcls vm.mapped _ hv]; exact ⟨_, rfl⟩
   · rw [hcls cm.mapped _ hc]; exact ⟨_, rfl⟩
 
-/-- the full statement of the response clause -/
-def AnalysisFull : Prop :=
+/-- the response clause at full strength (over a classifier) -/
+def AnalysisFullFor (cls : List Str → List Str → Option Feature) : Prop :=
   ∀ (A A' : Analyzer) (sid : Str) (vm : VMsg) (cm : CMsg) (o : AnalysisOut),
-    AInv A → sid ≠ [] → analysis A sid vm cm = .ok (A', o) → fullOk sid vm cm o.vResp o.cResp = true
+    AInv A → sid ≠ [] → analysisWith cls A sid vm cm = .ok (A', o) → fullOk sid vm cm o.vResp o.cResp = true
 
-/-- proved part: with every mapped port inside 1..65535 (explicit hypothesis — the code does not
-    check it, see `analysis_oor_witness`) the pair is fully correct, port ranges included -/
-theorem analysis_full_partial (A A' : Analyzer) (sid : Str) (vm : VMsg) (cm : CMsg) (o : AnalysisOut)
+/-- generic core: with every mapped port inside 1..65535 the pair is fully correct, port ranges
+    included -/
+theorem analysis_full_partial (cls : List Str → List Str → Option Feature)
+    (hdiff : ∀ l loc f, cls l loc = some f → 0 ≤ f.portsDifference)
+    (A A' : Analyzer) (sid : Str) (vm : VMsg) (cm : CMsg) (o : AnalysisOut)
     (hA : AInv A) (hsid : sid ≠ []) (hv : addrsValid vm.mapped = true) (hc : addrsValid cm.mapped = true)
-    (h : analysis A sid vm cm = .ok (A', o)) :
+    (h : analysisWith cls A sid vm cm = .ok (A', o)) :
     fullOk sid vm cm o.vResp o.cResp = true := by
-  have hpair := (analysis_pair_ok A A' sid vm cm o hA hsid h).1
+  have hpair := (analysisWith_pair_ok cls A A' sid vm cm o hA hsid h).1
   have hlast : ∀ (l : List Str), addrsValid l = true →
       ∀ a, (compactZeroed l).getLast? = some a → portValid a = true ∨ splitHostPort a = none := by
     intro l hl a ha
     rcases getLast_compactZeroed ha with hm | he
     · left; exact List.all_eq_true.mp hl a hm
     · right; subst he; exact splitHostPort_nil
-  unfold analysis at h
+  unfold analysisWith at h
   split at h
   · cases h
   · next cf hcf =>
@@ -456,10 +495,10 @@ theorem analysis_full_partial (A A' : Analyzer) (sid : Str) (vm : VMsg) (cm : CM
       subst ho
       have h1 := ports_in_range_core (compactZeroed cm.mapped) cf.portsDifference
         (getRecommand A (analysisKey vm vf cm cf) cf vf).2.vBeh.portsRangeNumber
-        (by have := classify_diff_nonneg hcf; omega) (hlast _ hc)
+        (by have := hdiff _ _ _ hcf; omega) (hlast _ hc)
       have h2 := ports_in_range_core (compactZeroed vm.mapped) vf.portsDifference
         (getRecommand A (analysisKey vm vf cm cf) cf vf).2.cBeh.portsRangeNumber
-        (by have := classify_diff_nonneg hvf; omega) (hlast _ hv)
+        (by have := hdiff _ _ _ hvf; omega) (hlast _ hv)
       simp only [fullOk, hpair, hv, hc, Bool.true_and, Bool.or_eq_true]
       right
       simp only [rangesOk, List.all_eq_true, List.mem_append]
@@ -468,32 +507,54 @@ theorem analysis_full_partial (A A' : Analyzer) (sid : Str) (vm : VMsg) (cm : CM
       · exact h1 r hr
       · exact h2 r hr
 
+/-- FULL statement for the current code (f51e354), no hypothesis on the ports: every successful
+    analysis was computed from validated addresses and all its port ranges are inside 1..65535
+    with From ≤ To; anything else is answered with the error pair (`analysis_malformed_error`) -/
+theorem analysis_full : AnalysisFullFor classify := by
+  intro A A' sid vm cm o hA hsid h
+  have hvc : addrsValid vm.mapped = true ∧ addrsValid cm.mapped = true := by
+    have h' := h
+    unfold analysisWith at h'
+    split at h'
+    · cases h'
+    · next cf hcf =>
+      split at h'
+      · cases h'
+      · next vf hvf => exact ⟨classify_ok_valid hvf, classify_ok_valid hcf⟩
+  exact analysis_full_partial classify (fun l loc f hf => classify_diff_nonneg hf)
+    A A' sid vm cm o hA hsid hvc.1 hvc.2 h
+
 def vmW : VMsg := { tid := [118], mapped := [Str.ofString "1.2.3.4:80", Str.ofString "1.2.3.4:80"] }
 def cmW : CMsg := { tid := [99], sid := [115],
                     mapped := [Str.ofString "9.9.9.9:70000", Str.ofString "9.9.9.9:70001"] }
 
-/-- the full statement is false on this tree: ports 70000/70001 are accepted, the visitor is told
-    to probe the range 69995..65535 -/
-theorem analysis_oor_witness : ¬ AnalysisFull := by
+/-- PINNED TREE (before f51e354): the full statement was false — ports 70000/70001 were
+    accepted and the visitor was told to probe the range 69995..65535 -/
+theorem analysis_oor_witness : ¬ AnalysisFullFor classifyOld := by
   intro h
   have hA : AInv {} := ainv_init
-  have key : ∃ A' o, analysis {} [115] vmW cmW = .ok (A', o) ∧ fullOk [115] vmW cmW o.vResp o.cResp = false ∧
+  have key : ∃ A' o, analysisOld {} [115] vmW cmW = .ok (A', o) ∧ fullOk [115] vmW cmW o.vResp o.cResp = false ∧
       o.vResp.candidatePorts = [(69995, 65535)] := by
-    match hh : analysis {} [115] vmW cmW with
+    match hh : analysisOld {} [115] vmW cmW with
     | .ok (A', o) =>
       refine ⟨A', o, rfl, ?_, ?_⟩
-      · have : (match analysis {} [115] vmW cmW with
+      · have : (match analysisOld {} [115] vmW cmW with
           | .ok (_, o) => fullOk [115] vmW cmW o.vResp o.cResp | .error _ => true) = false := by decide +kernel
         rw [hh] at this; exact this
-      · have : (match analysis {} [115] vmW cmW with
+      · have : (match analysisOld {} [115] vmW cmW with
           | .ok (_, o) => o.vResp.candidatePorts | .error _ => []) = [(69995, 65535)] := by decide +kernel
         rw [hh] at this; exact this
     | .error e =>
-      have : (match analysis {} [115] vmW cmW with | .ok _ => true | .error _ => false) = true := by decide +kernel
+      have : (match analysisOld {} [115] vmW cmW with | .ok _ => true | .error _ => false) = true := by decide +kernel
       rw [hh] at this; cases this
   obtain ⟨A', o, h1, h2, _⟩ := key
   have := h {} A' [115] vmW cmW o hA (by decide) h1
   rw [h2] at this; cases this
+
+/-- … and the same input on the current code is answered with the error pair -/
+theorem analysis_oor_now_error :
+    (match analysis {} [115] vmW cmW with
+     | .error e => decide (e = .classifyClient) | .ok _ => false) = true := by decide +kernel
 
 /-- "two honest peers on an unfiltered network that follow the instructions find each other", on
     the logic level: the sender probes `AssistedAddrs ++ CandidateAddrs` (nathole.go MakeHole); on
@@ -518,7 +579,7 @@ theorem honest_peers_meet (sid : Str) (vm : VMsg) (cm : CMsg) (v c : Resp)
 /-! ## 6. Controller sessions: small-step model, all interleavings -/
 
 def handlerOf : Label → Option Str
-  | .notify sid | .wake sid | .timeout sid | .sendV sid | .sendC sid | .sleepDone sid => some sid
+  | .notify sid | .notifyTimeout sid | .wake sid | .timeout sid | .sendV sid | .sendC sid | .sleepDone sid => some sid
   | _ => none
 
 def phaseRank : Phase → Nat
@@ -547,9 +608,6 @@ theorem rank_del (s : State) (k sid : Str) (cf : List (Str × Cfg)) (A : Analyze
   simp only [rank, aget_adel]
   by_cases e : k = sid <;> simp [e]
 
-theorem rank_same (s : State) (sid : Str) (cf : List (Str × Cfg)) (A : Analyzer) (n : Nat) :
-    rank { cfgs := cf, sessions := s.sessions, analyzer := A, nextChan := n } sid = rank s sid := rfl
-
 theorem finishSend_rank_v (sess : Session) (vr cr : Resp) (c : Bool) :
     phaseRank (finishSend sess vr cr true c).phase < phaseRank (.responding vr cr false c) := by
   cases c <;> simp [finishSend, phaseRank]
@@ -561,6 +619,7 @@ theorem finishSend_rank_c (sess : Session) (vr cr : Resp) (v : Bool) :
 theorem rank_of_get {s : State} {sid : Str} {x : Session} (h : aget s.sessions sid = some x) :
     rank s sid = phaseRank x.phase := by simp [rank, h]
 
+/-- every step of a session's own handler strictly lowers its rank -/
 theorem handler_rank_decreases (s s' : State) (l : Label) (o : Out) (sid : Str)
     (hl : handlerOf l = some sid) (h : step s l = some (s', o)) : rank s' sid < rank s sid := by
   cases l <;> simp only [handlerOf, Option.some.injEq, reduceCtorEq] at hl
@@ -575,6 +634,10 @@ theorem handler_rank_decreases (s s' : State) (l : Label) (o : Out) (sid : Str)
     · split at h
       · cases h; rw [rank_put]; simp [phaseRank, *]
       · cases h
+    · cases h
+  · -- notifyTimeout
+    split at h
+    · cases h; rw [rank_del]; simp [phaseRank, *]
     · cases h
   · -- wake
     split at h
@@ -631,7 +694,9 @@ theorem rank_not_increased (s s' : State) (l : Label) (o : Out) (sid : Str)
         · cases h; exact Nat.le_refl _
         · split at h
           · cases h; exact Nat.le_refl _
-          · cases h; rw [rank_put_ne _ _ _ _ _ _ _ hne]; exact Nat.le_refl _
+          · split at h
+            · cases h; exact Nat.le_refl _
+            · cases h; rw [rank_put_ne _ _ _ _ _ _ _ hne]; exact Nat.le_refl _
     case clientMsg m t =>
       split at h
       · cases h; exact Nat.le_refl _
@@ -655,6 +720,12 @@ theorem rank_not_increased (s s' : State) (l : Label) (o : Out) (sid : Str)
         · split at h
           · cases h; rw [rank_put_ne _ _ _ _ _ _ _ hne]; exact Nat.le_refl _
           · cases h
+        · cases h
+      · cases h
+    case notifyTimeout =>
+      split at h
+      · split at h
+        · cases h; rw [rank_del_ne _ _ _ _ _ _ hne]; exact Nat.le_refl _
         · cases h
       · cases h
     case wake =>
@@ -741,12 +812,13 @@ theorem rank_zero_iff (s : State) (sid : Str) : rank s sid = 0 ↔ aget s.sessio
 theorem get_put_ne {α : Type} (l : List (Str × α)) (k k' : Str) (v : α) (h : k ≠ k') :
     aget (aput l k v) k' = aget l k' := by rw [aget_aput]; simp [h]
 
-/-- a session appears only through `visitorLookup` for a registered proxy name with a correct
-    signature (`SignKey = md5(sk ++ timestamp)`); every other label keeps the key set or shrinks it -/
+/-- a session appears only through `visitorLookup` for a registered proxy name, with a correct
+    signature (`SignKey = md5(sk ++ timestamp)`) AND a user on the proxy's allow list (C08 fix);
+    every other label keeps the key set or shrinks it -/
 theorem session_created_only_signed (s s' : State) (l : Label) (o : Out) (sid : Str)
     (h : step s l = some (s', o)) (hnew : aget s.sessions sid = none) (hs' : aget s'.sessions sid ≠ none) :
     ∃ m t u cfg, l = .visitorLookup sid m t u ∧ aget s.cfgs m.proxyName = some cfg ∧
-      m.signed = authInput cfg.sk m.timestamp ∧ o = [] := by
+      m.signed = authInput cfg.sk m.timestamp ∧ userAllowed cfg.allow u = true ∧ o = [] := by
   have key : ∀ (k : Str) (x : Session), aget s.sessions k ≠ none → aget (aput s.sessions k x) sid ≠ none → False := by
     intro k x hk hp
     by_cases e : k = sid
@@ -768,11 +840,14 @@ theorem session_created_only_signed (s s' : State) (l : Label) (o : Out) (sid : 
         split at h
         · cases h; exact absurd hnew hs'
         · next hsig =>
-          cases h
-          by_cases e : sid' = sid
-          · subst e
-            exact ⟨m, t, u, cfg, rfl, hcfg, by simpa using hsig, rfl⟩
-          · simp only at hs'; rw [get_put_ne _ _ _ _ e] at hs'; exact absurd hnew hs'
+          split at h
+          · cases h; exact absurd hnew hs'
+          · next hallow =>
+            cases h
+            by_cases e : sid' = sid
+            · subst e
+              exact ⟨m, t, u, cfg, rfl, hcfg, by simpa using hsig, by simpa using hallow, rfl⟩
+            · simp only at hs'; rw [get_put_ne _ _ _ _ e] at hs'; exact absurd hnew hs'
   case listen => split at h <;> cases h <;> exact absurd hnew hs'
   case close => cases h; exact absurd hnew hs'
   case precheck =>
@@ -795,6 +870,12 @@ theorem session_created_only_signed (s s' : State) (l : Label) (o : Out) (sid : 
       · split at h
         · cases h; exact (key sid' _ (by simp [hsess]) hs').elim
         · cases h
+      · cases h
+    · cases h
+  case notifyTimeout sid' =>
+    split at h
+    · split at h
+      · cases h; exact (keyd sid' hs').elim
       · cases h
     · cases h
   case wake sid' =>
@@ -833,12 +914,14 @@ theorem session_created_only_signed (s s' : State) (l : Label) (o : Out) (sid : 
       · cases h
     · cases h
 
-/-- who may be sent something by a step: the requester of a refused / pre-check request, or — for
-    a stored session — its visitor transporter (sendV) or the transporter that submitted the
+/-- who may be sent something by a step: the requester of a refused / pre-check request, the
+    visitor of a session whose notify send timed out (8d80cd3: an error, no sid), or — for a
+    stored session — its visitor transporter (sendV) or the transporter that submitted the
     session's current NatHoleClient (sendC); the message is the response built for that party -/
 def Involved (s : State) (l : Label) (t : Nat) (r : Resp) : Prop :=
   (∃ m u, l = .precheck m t u ∧ r.sid = []) ∨
   (∃ sid m u, l = .visitorLookup sid m t u ∧ r.sid = [] ∧ r.error ≠ .none) ∨
+  (∃ sid sess, aget s.sessions sid = some sess ∧ l = .notifyTimeout sid ∧ t = sess.vT ∧ r.sid = [] ∧ r.error ≠ .none) ∨
   (∃ sid sess vr cr v c, aget s.sessions sid = some sess ∧ sess.phase = .responding vr cr v c ∧
      ((l = .sendV sid ∧ t = sess.vT ∧ r = vr ∧ v = false) ∨ (l = .sendC sid ∧ sess.cT = some t ∧ r = cr ∧ c = false)))
 
@@ -861,7 +944,10 @@ theorem responses_only_to_involved (s s' : State) (l : Label) (o : Out) (t : Nat
       · split at h
         · cases h; simp only [List.mem_singleton, Prod.mk.injEq] at hm; obtain ⟨rfl, rfl⟩ := hm
           exact ⟨sid, m, u, rfl, rfl, by simp [errResp]⟩
-        · cases h; cases hm
+        · split at h
+          · cases h; simp only [List.mem_singleton, Prod.mk.injEq] at hm; obtain ⟨rfl, rfl⟩ := hm
+            exact ⟨sid, m, u, rfl, rfl, by simp [errResp]⟩
+          · cases h; cases hm
   case listen => split at h <;> cases h <;> cases hm
   case close => cases h; cases hm
   case clean => cases h; cases hm
@@ -876,6 +962,14 @@ theorem responses_only_to_involved (s s' : State) (l : Label) (o : Out) (t : Nat
       · split at h
         · cases h; cases hm
         · cases h
+      · cases h
+    · cases h
+  case notifyTimeout sid =>
+    split at h
+    · next sess hsess =>
+      split at h
+      · cases h; simp only [List.mem_singleton, Prod.mk.injEq] at hm; obtain ⟨rfl, rfl⟩ := hm
+        exact Or.inr (Or.inr (Or.inl ⟨sid, sess, hsess, rfl, rfl, rfl, by simp [errResp]⟩))
       · cases h
     · cases h
   case wake =>
@@ -902,7 +996,7 @@ theorem responses_only_to_involved (s s' : State) (l : Label) (o : Out) (t : Nat
       split at h
       · next vr cr c hp =>
         cases h; simp only [List.mem_singleton, Prod.mk.injEq] at hm; obtain ⟨rfl, rfl⟩ := hm
-        exact Or.inr (Or.inr ⟨sid, sess, r, cr, false, c, hsess, hp, Or.inl ⟨rfl, rfl, rfl, rfl⟩⟩)
+        exact Or.inr (Or.inr (Or.inr ⟨sid, sess, r, cr, false, c, hsess, hp, Or.inl ⟨rfl, rfl, rfl, rfl⟩⟩))
       · cases h
     · cases h
   case sendC sid =>
@@ -911,7 +1005,7 @@ theorem responses_only_to_involved (s s' : State) (l : Label) (o : Out) (t : Nat
       split at h
       · next vr cr v t' hp ht =>
         cases h; simp only [List.mem_singleton, Prod.mk.injEq] at hm; obtain ⟨rfl, rfl⟩ := hm
-        exact Or.inr (Or.inr ⟨sid, sess, vr, r, v, false, hsess, hp, Or.inr ⟨rfl, ht, rfl, rfl⟩⟩)
+        exact Or.inr (Or.inr (Or.inr ⟨sid, sess, vr, r, v, false, hsess, hp, Or.inr ⟨rfl, ht, rfl, rfl⟩⟩))
       · cases h
     · cases h
 
@@ -920,55 +1014,226 @@ theorem unknown_sid_noop (s : State) (m : CMsg) (t : Nat) (b : Bool) (h : aget s
     step s (.clientMsg m t) = some (s, []) ∧ step s (.report m.sid b) = some (s, []) := by
   simp [step, h]
 
-/-- a handler that is not blocked in the notify send always has an enabled step -/
+/-! ### progress: no handler is ever stuck (8d80cd3) -/
+
+/-- which handler step is enabled in which phase; with 8d80cd3 the notify phase always has
+    the timeout alternative — no hypothesis about the owner's channel any more.  (`cT ≠ none` in
+    the responding phase is an invariant of reachable states, see `wf_run`.) -/
 theorem handler_progress (s : State) (sid : Str) (x : Session) (h : aget s.sessions sid = some x) :
     (x.phase = .waiting → (step s (.timeout sid)).isSome) ∧
     (x.phase = .sleeping → (step s (.sleepDone sid)).isSome) ∧
-    (∀ ch, x.phase = .notifying ch → chanAlive s.cfgs ch = true → (step s (.notify sid)).isSome) ∧
+    (∀ ch, x.phase = .notifying ch → (step s (.notifyTimeout sid)).isSome) ∧
     (∀ vr cr c, x.phase = .responding vr cr false c → (step s (.sendV sid)).isSome) ∧
     (∀ vr cr v, x.phase = .responding vr cr v false → x.cT ≠ none → (step s (.sendC sid)).isSome) := by
   refine ⟨?_, ?_, ?_, ?_, ?_⟩
   · intro hp; simp [step, h, hp]
   · intro hp; simp [step, h, hp]
-  · intro ch hp ha; simp [step, h, hp, ha]
+  · intro ch hp; simp [step, h, hp]
   · intro vr cr c hp; simp [step, h, hp]
   · intro vr cr v hp hc
     cases hct : x.cT with
     | none => exact absurd hct hc
     | some t => simp [step, h, hp, hct]
 
-/-! ### the two findings about sessions, as theorems -/
+/-- invariant of reachable states: a session whose responses are being sent has a client
+    transporter, and the two "sent" flags are never both set (that state is `sleeping`) -/
+def WF (s : State) : Prop :=
+  ∀ sid x, aget s.sessions sid = some x →
+    ∀ vr cr v c, x.phase = .responding vr cr v c → x.cT ≠ none ∧ (v = false ∨ c = false)
 
-/-- a handler blocked in `clientCfg.sidCh <- sid` on a channel nobody receives from has no enabled
-    step at all: NatHoleTimeout does not cover the send -/
+theorem wf_init : WF {} := by intro sid x h; simp [aget] at h
+
+theorem wf_put {s : State} (hw : WF s) (k : Str) (x : Session) (cf : List (Str × Cfg)) (A : Analyzer) (n : Nat)
+    (hx : ∀ vr cr v c, x.phase = .responding vr cr v c → x.cT ≠ none ∧ (v = false ∨ c = false)) :
+    WF { cfgs := cf, sessions := aput s.sessions k x, analyzer := A, nextChan := n } := by
+  intro sid y hy
+  simp only [aget_aput] at hy
+  split at hy
+  · cases hy; exact hx
+  · exact hw sid y hy
+
+theorem wf_del {s : State} (hw : WF s) (k : Str) (cf : List (Str × Cfg)) (A : Analyzer) (n : Nat) :
+    WF { cfgs := cf, sessions := adel s.sessions k, analyzer := A, nextChan := n } := by
+  intro sid y hy
+  simp only [aget_adel] at hy
+  split at hy
+  · cases hy
+  · exact hw sid y hy
+
+theorem wf_same {s : State} (hw : WF s) (cf : List (Str × Cfg)) (A : Analyzer) (n : Nat) :
+    WF { cfgs := cf, sessions := s.sessions, analyzer := A, nextChan := n } := hw
+
+theorem finishSend_wf (sess : Session) (vr cr : Resp) (v c : Bool) (hct : sess.cT ≠ none) (hvc : v = false ∨ c = false ∨ True) :
+    ∀ vr' cr' v' c', (finishSend sess vr cr v c).phase = .responding vr' cr' v' c' →
+      (finishSend sess vr cr v c).cT ≠ none ∧ (v' = false ∨ c' = false) := by
+  intro vr' cr' v' c' hp
+  unfold finishSend at hp ⊢
+  cases v <;> cases c <;> simp at hp ⊢
+  all_goals (obtain ⟨_, _, hv, hc⟩ := hp; subst hv; subst hc; exact ⟨hct, by simp⟩)
+
+theorem wf_step (s s' : State) (l : Label) (o : Out) (hw : WF s) (h : step s l = some (s', o)) : WF s' := by
+  cases l <;> simp only [step] at h
+  case listen => split at h <;> cases h <;> exact hw
+  case close => cases h; exact hw
+  case precheck =>
+    split at h
+    · cases h; exact hw
+    · split at h <;> cases h <;> exact hw
+  case clean => cases h; exact hw
+  case report =>
+    split at h
+    · cases h; exact hw
+    · split at h <;> cases h <;> exact hw
+  case visitorLookup sid m t u =>
+    split at h
+    · cases h
+    · split at h
+      · cases h; exact hw
+      · split at h
+        · cases h; exact hw
+        · split at h
+          · cases h; exact hw
+          · cases h; exact wf_put hw _ _ _ _ _ (by intro vr cr v c hp; cases hp)
+  case clientMsg m t =>
+    split at h
+    · cases h; exact hw
+    · next sess hsess =>
+      cases h
+      apply wf_put hw
+      intro vr cr v c hp
+      exact ⟨by simp, (hw _ _ hsess vr cr v c hp).2⟩
+  case notify sid =>
+    split at h
+    · next sess hsess =>
+      split at h
+      · split at h
+        · cases h; exact wf_put hw _ _ _ _ _ (by intro vr cr v c hp; cases hp)
+        · cases h
+      · cases h
+    · cases h
+  case notifyTimeout sid =>
+    split at h
+    · split at h
+      · cases h; exact wf_del hw _ _ _ _
+      · cases h
+    · cases h
+  case wake sid =>
+    split at h
+    · next sess hsess =>
+      split at h
+      · next cm t hp hn hcm hct =>
+        split at h
+        · cases h
+          apply wf_put hw
+          intro vr cr v c hp'
+          simp only [Phase.responding.injEq] at hp'
+          exact ⟨by simp [hct], Or.inl hp'.2.2.1.symm⟩
+        · cases h
+          apply wf_put hw
+          intro vr cr v c hp'
+          simp only [Phase.responding.injEq] at hp'
+          exact ⟨by simp [hct], Or.inl hp'.2.2.1.symm⟩
+      · cases h
+    · cases h
+  case timeout sid =>
+    split at h
+    · split at h
+      · cases h; exact wf_del hw _ _ _ _
+      · cases h
+    · cases h
+  case sleepDone sid =>
+    split at h
+    · split at h
+      · cases h; exact wf_del hw _ _ _ _
+      · cases h
+    · cases h
+  case sendV sid =>
+    split at h
+    · next sess hsess =>
+      split at h
+      · next vr cr c hp =>
+        cases h
+        exact wf_put hw _ _ _ _ _ (finishSend_wf sess vr cr true c (hw _ _ hsess vr cr false c hp).1 (by simp))
+      · cases h
+    · cases h
+  case sendC sid =>
+    split at h
+    · next sess hsess =>
+      split at h
+      · next vr cr v t hp ht =>
+        cases h
+        exact wf_put hw _ _ _ _ _ (finishSend_wf sess vr cr v true (by simp [ht]) (by simp))
+      · cases h
+    · cases h
+
+theorem wf_run : ∀ (ls : List Label) (s s' : State) (o : Out), WF s → run s ls = some (s', o) → WF s' := by
+  intro ls
+  induction ls with
+  | nil => intro s s' o hw h; simp only [run] at h; cases h; exact hw
+  | cons l ls ih =>
+    intro s s' o hw h
+    simp only [run] at h
+    split at h
+    · cases h
+    · next s1 o1 hstep =>
+      split at h
+      · cases h
+      · next s2 o2 hrun => cases h; exact ih s1 _ o2 (wf_step s s1 l o1 hw hstep) hrun
+
+/-- FULL progress statement for the current code: in every state reachable from the initial one
+    by any label sequence, every stored session has an enabled step of its own handler — no
+    hypothesis about the owner's channel.  With `sessions_deleted` (each such step lowers the rank,
+    nothing raises it, rank ≤ 6): under fair scheduling of its handler every inserted session is
+    deleted after at most 6 handler steps. -/
+theorem handler_never_stuck (ls : List Label) (s : State) (o : Out) (sid : Str) (x : Session)
+    (hr : run {} ls = some (s, o)) (hx : aget s.sessions sid = some x) :
+    ∃ l, handlerOf l = some sid ∧ (step s l).isSome = true := by
+  have hw := wf_run ls {} s o wf_init hr
+  have hp := handler_progress s sid x hx
+  cases hph : x.phase with
+  | notifying ch => exact ⟨.notifyTimeout sid, rfl, hp.2.2.1 ch hph⟩
+  | waiting => exact ⟨.timeout sid, rfl, hp.1 hph⟩
+  | sleeping => exact ⟨.sleepDone sid, rfl, hp.2.1 hph⟩
+  | responding vr cr v c =>
+    have hwf := hw sid x hx vr cr v c hph
+    cases v with
+    | false => exact ⟨.sendV sid, rfl, hp.2.2.2.1 vr cr c hph⟩
+    | true =>
+      cases c with
+      | false => exact ⟨.sendC sid, rfl, hp.2.2.2.2 vr cr true hph hwf.1⟩
+      | true => rcases hwf.2 with h | h <;> cases h
+
+/-! ### the pinned tree: the two session findings, kept as documentation (`stepOld`, `runOld`) -/
+
+/-- PINNED TREE (before 8d80cd3): a handler blocked in `clientCfg.sidCh <- sid` on a channel
+    nobody receives from had no enabled step at all: NatHoleTimeout did not cover the send -/
 theorem blocked_no_handler_step (s : State) (sid : Str) (x : Session) (ch : Nat)
     (h : aget s.sessions sid = some x) (hp : x.phase = .notifying ch) (hd : chanAlive s.cfgs ch = false) :
-    ∀ l, handlerOf l = some sid → step s l = none := by
+    ∀ l, handlerOf l = some sid → stepOld s l = none := by
   intro l hl
   cases l <;> simp only [handlerOf, Option.some.injEq, reduceCtorEq] at hl
   all_goals subst hl
-  all_goals simp [step, h, hp, hd]
+  all_goals simp [stepOld, step, h, hp, hd]
 
 def mW : VMsg := { tid := [118], proxyName := [112], signed := authInput [115] 7, timestamp := 7,
                    mapped := [Str.ofString "1.2.3.4:80", Str.ofString "1.2.3.4:80"] }
 
-/-- listen p (allowUsers = ["alice"]); a correctly signed visitor request by user "mallory";
-    close p  — all three enabled from the initial state -/
+/-- listen p (allowUsers = ["alice"]); a correctly signed visitor request by user "alice";
+    close p — all three enabled from the initial state -/
 def leakTrace : List Label :=
-  [.listen [112] [115] [Str.ofString "alice"], .visitorLookup [115, 49] mW 5 (Str.ofString "mallory"), .close [112]]
+  [.listen [112] [115] [Str.ofString "alice"], .visitorLookup [115, 49] mW 5 (Str.ofString "alice"), .close [112]]
 
-/-- `every session is eventually deleted` is false on this tree: after `leakTrace` the session
-    s1 is stored, its handler is blocked on a dead channel, and no step of its handler is enabled —
-    in particular neither the timeout nor the deferred delete. -/
+/-- PINNED TREE: `every session is eventually deleted` was false — after `leakTrace` the session
+    s1 is stored, its handler is blocked on a dead channel, and no step of its handler is enabled. -/
 theorem leak_witness :
-    ∃ s x, run {} leakTrace = some (s, []) ∧ aget s.sessions [115, 49] = some x ∧
+    ∃ s x, runOld {} leakTrace = some (s, []) ∧ aget s.sessions [115, 49] = some x ∧
       x.phase = .notifying 0 ∧ chanAlive s.cfgs 0 = false ∧
-      ∀ l, handlerOf l = some [115, 49] → step s l = none := by
-  have h : ∃ s x, run {} leakTrace = some (s, []) ∧ aget s.sessions [115, 49] = some x ∧
+      ∀ l, handlerOf l = some [115, 49] → stepOld s l = none := by
+  have h : ∃ s x, runOld {} leakTrace = some (s, []) ∧ aget s.sessions [115, 49] = some x ∧
       x.phase = .notifying 0 ∧ chanAlive s.cfgs 0 = false := by
-    match hr : run {} leakTrace with
+    match hr : runOld {} leakTrace with
     | some (s, o) =>
-      have h1 : (match run {} leakTrace with
+      have h1 : (match runOld {} leakTrace with
         | some (s, o) => o.isEmpty && (match aget s.sessions [115, 49] with
             | some x => decide (x.phase = .notifying 0) | none => false) && !chanAlive s.cfgs 0
         | none => false) = true := by decide +kernel
@@ -980,43 +1245,34 @@ theorem leak_witness :
       · next x hx' => exact ⟨s, x, rfl, hx', by simpa using hx, hc⟩
       · cases hx
     | none =>
-      have h1 : (run {} leakTrace).isSome = true := by decide +kernel
+      have h1 : (runOld {} leakTrace).isSome = true := by decide +kernel
       rw [hr] at h1; cases h1
   obtain ⟨s, x, h1, h2, h3, h4⟩ := h
   exact ⟨s, x, h1, h2, h3, h4, blocked_no_handler_step s _ x 0 h2 h3 h4⟩
 
-/-- the same trace shows that the non-pre-check branch of HandleVisitor does not consult
-    AllowUsers: "mallory" is not in ["alice"], the pre-check refuses her, the real request creates
-    a session (reported under C08; C20 only requires signature + live proxy) -/
+/-- … on the current code the same trace leaves the handler with its timeout alternative, which
+    deletes the session and tells the visitor -/
+theorem leak_trace_now_recovers :
+    (match run {} (leakTrace ++ [.notifyTimeout [115, 49]]) with
+     | some (s, o) => (aget s.sessions [115, 49]).isNone && decide (o = [(5, errResp [118] .notifyTimeout)])
+     | none => false) = true := by decide +kernel
+
+def allowTrace : List Label :=
+  [.listen [112] [115] [Str.ofString "alice"], .visitorLookup [115, 49] mW 5 (Str.ofString "mallory")]
+
+/-- PINNED TREE (before the C08 fix): the non-pre-check branch of HandleVisitor did not consult
+    AllowUsers — "mallory" is not in ["alice"], the pre-check refuses her, the real request created
+    a session.  On the current code (`step`) the same request is refused with `notAllowed`
+    (general statement: `session_created_only_signed`). -/
 theorem allow_users_not_checked_witness :
-    (∃ s o, run {} [.listen [112] [115] [Str.ofString "alice"], .precheck mW 5 (Str.ofString "mallory")] = some (s, o) ∧
-       o = [(5, errResp [118] .notAllowed)]) ∧
-    (∃ s, run {} [.listen [112] [115] [Str.ofString "alice"], .visitorLookup [115, 49] mW 5 (Str.ofString "mallory")] = some (s, []) ∧
-       (aget s.sessions [115, 49]).isSome = true) := by
-  constructor
-  · match hr : run {} [.listen [112] [115] [Str.ofString "alice"], .precheck mW 5 (Str.ofString "mallory")] with
-    | some (s, o) =>
-      have h1 : (match run {} [.listen [112] [115] [Str.ofString "alice"], .precheck mW 5 (Str.ofString "mallory")] with
-        | some (_, o) => decide (o = [(5, errResp [118] .notAllowed)]) | none => false) = true := by decide +kernel
-      rw [hr] at h1
-      exact ⟨s, o, rfl, by simpa using h1⟩
-    | none =>
-      have h1 : (run {} [.listen [112] [115] [Str.ofString "alice"], .precheck mW 5 (Str.ofString "mallory")]).isSome = true := by
-        decide +kernel
-      rw [hr] at h1; cases h1
-  · match hr : run {} [.listen [112] [115] [Str.ofString "alice"], .visitorLookup [115, 49] mW 5 (Str.ofString "mallory")] with
-    | some (s, o) =>
-      have h1 : (match run {} [.listen [112] [115] [Str.ofString "alice"], .visitorLookup [115, 49] mW 5 (Str.ofString "mallory")] with
-        | some (s, o) => o.isEmpty && (aget s.sessions [115, 49]).isSome | none => false) = true := by decide +kernel
-      rw [hr] at h1
-      simp only [Bool.and_eq_true, List.isEmpty_iff] at h1
-      obtain ⟨ho, hs⟩ := h1
-      subst ho
-      exact ⟨s, rfl, hs⟩
-    | none =>
-      have h1 : (run {} [.listen [112] [115] [Str.ofString "alice"], .visitorLookup [115, 49] mW 5 (Str.ofString "mallory")]).isSome = true := by
-        decide +kernel
-      rw [hr] at h1; cases h1
+    (match run {} [.listen [112] [115] [Str.ofString "alice"], .precheck mW 5 (Str.ofString "mallory")] with
+     | some (_, o) => decide (o = [(5, errResp [118] .notAllowed)]) | none => false) = true ∧
+    (match runOld {} allowTrace with
+     | some (s, o) => o.isEmpty && (aget s.sessions [115, 49]).isSome | none => false) = true ∧
+    (match run {} allowTrace with
+     | some (s, o) => (aget s.sessions [115, 49]).isNone && decide (o = [(5, errResp [118] .notAllowed)])
+     | none => false) = true := by
+  refine ⟨?_, ?_, ?_⟩ <;> decide +kernel
 
 /-! ## 7. Soundness of the executable predicates -/
 
